@@ -51,7 +51,7 @@ public:
 	const Bytes *data = nullptr;
 	size_t pos = 0;
 	int64_t trunc = -1, errat = -1, skipfail = -1;
-	int seekerr = 0, skippast = 0;
+	int seekerr = 0, skippast = 0, endless = 0;
 	uint64_t reads = 0, skips = 0, bytes = 0, eof_reads = 0, seeks = 0;
 	bool closed = false, err_fired = false, eof_hit = false;
 	int fd = -1;               // simulated descriptor when opened as a FILE
